@@ -27,7 +27,9 @@ Inductive pstat := Running | ExitOk | ExitFail | Killed.
 Inductive mk := NoMark | PauseMark | StopMark | BothMark.
 Inductive status := InProgress | Completed | Failed | Paused | Stopped.
 Inductive dec := CONT | PAUSE | STOP.
-Inductive bkind := Generic | Sim.
+(* Generic: TrialBackend's poll logic with LocalBackend's hooks; Legacy: the same with
+   LocalBackend._resume_trial as it was before patch F-C02-1; Sim: SimulatorBackend *)
+Inductive bkind := Generic | Legacy | Sim.
 (* ghost: what the tuner knows about the current run of a trial *)
 Inductive fstat := Live | Decided | DoneOk | DoneFail.
 
@@ -72,7 +74,7 @@ Definition new_trial (reps : list rep) : tr :=
 (* the worker writes [new]; the simulator also files it under _next_results_to_fetch *)
 Definition t_write (bk : bkind) (new rest : list rep) (p : pstat) (t : tr) : tr :=
   mkTr (log t ++ new) rest p (mark t) (seen t) (cstat t)
-       (match bk with Sim => nrf t ++ new | Generic => nrf t end)
+       (match bk with Sim => nrf t ++ new | _ => nrf t end)
        (cur t) (dcur t) (base t) (fin t) (past t).
 
 Definition t_emit (bk : bkind) (k : nat) (t : tr) : tr :=
@@ -113,7 +115,7 @@ Definition t_deliver (r : rep) (t : tr) : tr :=
 (* SimulatorBackend._stop_or_pause_trial, last step (repo commit 742ed2c): results of this trial
    processed inside the blocking call are popped from _next_results_to_fetch and counted as seen *)
 Definition drop_window (bk : bkind) (t : tr) : tr :=
-  match bk with Sim => take_nrf t | Generic => t end.
+  match bk with Sim => take_nrf t | _ => t end.
 (* TrialBackend.pause_trial: status := paused; _pause_trial (marker, kill) *)
 Definition t_pause (bk : bkind) (late : nat) (t : tr) : tr :=
   drop_window bk
@@ -132,7 +134,7 @@ Definition t_stop (bk : bkind) (late : nat) (t : tr) : tr :=
 Definition t_resume (bk : bkind) (reps : list rep) (t : tr) : tr :=
   mkTr (log t) reps Running
        (match mark t with PauseMark => NoMark | BothMark => StopMark | m => m end)
-       (match bk with Generic => length (log t) | Sim => seen t end)
+       (match bk with Generic => length (log t) | _ => seen t end)
        InProgress (nrf t) reps [] (length (log t)) Live
        (past t ++ [(cur t, dcur t, fin t)]).
 
@@ -201,8 +203,8 @@ Definition fetch_sim (ids : list nat) (ts : list tr) : list tr * list (nat * rep
 
 Definition fetch (bk : bkind) (ids : list nat) (ts : list tr) : list tr * list (nat * rep) :=
   match bk with
-  | Generic => let '(ts1, b) := fetch_generic ids ts in (ts1, sort_ts b)
   | Sim => fetch_sim ids ts
+  | _ => let '(ts1, b) := fetch_generic ids ts in (ts1, sort_ts b)
   end.
 
 (* ---- Tuner._update_running_trials ---------------------------------------------- *)
@@ -289,7 +291,7 @@ Definition w_step (bk : bkind) (w : wev) (ts : list tr) : list tr :=
   end.
 
 Definition resume_status (bk : bkind) (t : tr) : status :=
-  match bk with Generic => cstat t | Sim => status_of t end.
+  match bk with Sim => status_of t | _ => cstat t end.
 
 Definition step (bk : bkind) (st : state) (e : ev) : state * option err :=
   let ts := trials st in
